@@ -17,6 +17,7 @@ from ..flow import Engine, Tracker, TooManyStates
 from ..util import base_var
 
 PROPS = ("C04",)
+ALIAS_PROPS = ("C04", "C05")
 
 
 class AliasTracker(Tracker):
@@ -159,9 +160,9 @@ def run(P, tier="quick"):
             msg = "input '%s' is read at line %d (%s) after an output element has already been written: in-place conversion " \
                   "(input == output) reads its own result" % (ins[0]["name"], n.line, n.text()[:50]) if kind == "load" else \
                   "%s() receives both the input and the output array" % (n.callee or "call")
-            R.violated(Finding("R34c", PROPS, f.file, f.name, "alias", msg, n.line))
+            R.violated(Finding("R34c", ALIAS_PROPS, f.file, f.name, "alias", msg, n.line))
         else:
-            R.ok(key, set(PROPS))
+            R.ok(key, set(ALIAS_PROPS))
         is2 = "(*)[2]" in ins[0].get("t", "")
         # Z0-BOTH
         if z0:
@@ -211,6 +212,38 @@ def run(P, tier="quick"):
                     R.violated(Finding("R34d", PROPS, f.file, f.name, "out-once:" + o["name"],
                                        "output elements stored: %s; every one of %s must be stored exactly once" %
                                        (dict(sorted(counts.items())), sorted(want)), f.line))
+    # NO-ALLOC / NO-EARLY-RETURN: the conversions return void and cannot report a failure, so they must not contain a
+    # step that can fail (heap allocation) nor leave before the output is written
+    for f in P.lib_functions():
+        if not f.name.startswith("vnaconv_") or f.body is None:
+            continue
+        key = "R34d|%s|%s|total" % (f.file, f.name)
+        al = [c for c in f.calls() if c.callee in ("malloc", "calloc", "realloc", "strdup")]
+        rets = [r for r in f.returns()]
+        int_params = {p["decl"] for p in f.params if p.get("ct", p["t"]).replace("const ", "") in ("int", "unsigned int", "size_t")}
+
+        def arg_guard(r):
+            """the return is controlled only by tests of integer parameters against constants (`if (n <= 0) return;`)"""
+            ifs = [a for a in r.ancestors() if a.k == "IfStmt"]
+            for i_ in ifs:
+                c = [x for x in i_.kids if x is not None][0]
+                for m in c.walk():
+                    if m.k == "DeclRefExpr" and m.refkind != "enum" and m.refdecl not in int_params:
+                        return False
+                    if m.k in ("CallExpr", "MemberExpr", "ArraySubscriptExpr"):
+                        return False
+            return True
+        early = [r for r in rets if f.ret == "void" and any(a.k in ("IfStmt",) for a in r.ancestors()) and not arg_guard(r)]
+        if al:
+            R.violated(Finding("R34d", PROPS, f.file, f.name, "alloc",
+                               "%s() calls %s(): the conversion has no way to report the failure (it returns %s), so on "
+                               "allocation failure the output is not what vnaconv(3) defines" % (f.name, al[0].callee, f.ret), al[0].line))
+        elif early:
+            R.violated(Finding("R34d", PROPS, f.file, f.name, "early-return",
+                               "%s() returns early (line %d) from a void conversion: the output is left unwritten on that path" %
+                               (f.name, early[0].line), early[0].line))
+        else:
+            R.ok(key, set(PROPS))
     R.counts["vnaconv_functions"] = nfun
     if nfun < 85:
         from ..facts import AnalysisBroken
